@@ -6,6 +6,8 @@ VARIABLES c
 vars == <<c>>
 Quads == { q \in ((-E)..E) \X ((-E)..E) \X ((-E)..E) \X ((-E)..E) : <<q[1], q[2], q[3]>> # Zero3 }
 Planes == { MkPlane(LP(p), n) : p \in Box(1), n \in DirsOf(B) }
+          \* far points with steep normals: the support point chosen by the general-form constructor lies far out
+          \cup { MkPlane(LP(p), n) : p \in { <<8, 4, -7>>, <<-8, 3, 5>>, <<6, -8, 7>> }, n \in { <<1, 1, 7>>, <<1, -2, 8>>, <<-1, 3, 6>>, <<2, 7, -1>>, <<1, 8, 3>> } }
 Lines  == { MkLine(LP(p), u) : p \in Box(1), u \in DirsOf(B) }
 ProbeBox == { LP(p) : p \in Box(2) }
 Cases == { [t |-> "gf", q |-> q, pl |-> PlaneFromGeneral(q[1], q[2], q[3], q[4])] : q \in Quads }
